@@ -18,14 +18,14 @@ ASSUMPTIONS = ['theorem covers bodies of the Core fragment; panics in PartialEq 
                'user Hash panics during interner key-map growth are not injected (see DESIGN: C22 #3)', 'panic = abort builds are out of scope']
 
 def ties(ctx):
-    n = 12 if ctx.tier == 'quick' else 400
+    n = 30 if ctx.tier == 'quick' else 600
     m = 200 if ctx.tier == 'quick' else 5000
     return [run_seq(ctx, 'inject', n, corpus='C22'), run_conc(ctx, 'c22', 'threads', m)]
 
 def search(ctx, reason):
     t = run_seq(ctx, 'inject', 600, seed_offset=96, tag='search-inject')
     for f in t.failures:
-        if f.kind == 'oracle':
+        if f.kind == 'oracle' and f.key not in listed_keys():
             return f
     return None
 
